@@ -389,13 +389,102 @@ def skeleton(F, fn):
     return out
 
 
+def _next_back_semantics(F, fn):
+    eng, D = ctx(F)
+    lens, gets = [], []
+
+    def h_len(e, st, c, a, dest_tid, t):
+        v = e.fresh(dest_tid, ("container-len",))
+        e.add_cons(st, [(-v.lin, "<=")])
+        st.trace.append(("rec", "len", list(a), v))
+        return [(st, v)]
+
+    def h_get(e, st, c, a, dest_tid, t):
+        v = e.fresh(dest_tid, ("container-get", e.term(a[1])))
+        st.trace.append(("rec", "get", list(a), v))
+        return [(st, v)]
+
+    def h_copied(e, st, c, a, dest_tid, t):
+        v = e.fresh(dest_tid, ("copied", e.term(a[0])))
+        st.trace.append(("rec", "copied", list(a), v))
+        return [(st, v)]
+
+    def h_deref(e, st, c, a, dest_tid, t):
+        return [(st, e.fresh(dest_tid, ("deref", e.term(a[0]))))]
+    eng.hooks["core::slice::<impl [T]>::len"] = h_len
+    eng.hooks["core::vec::Vec::<T, A>::len"] = h_len
+    eng.hooks["core::slice::<impl [T]>::get"] = h_get
+    eng.hooks["core::option::Option::<&T>::copied"] = h_copied
+    eng.hooks["<core::vec::Vec<T, A> as core::ops::Deref>::deref"] = h_deref
+    try:
+        finals, args = D.run(fn, canonical=False)
+    finally:
+        eng.hooks.clear()
+    ini = eng.sym_cells0[args[0].key]
+    names = eng.types[ini.tid]["variants"][0]["fields"]
+    if "iter_pos" not in names:
+        return False, "the provider has no iter_pos counter"
+    ip = names.index("iter_pos")
+    pos0 = ini.fs[ip].lin
+    problems = []
+    kinds = set()
+    for st in finals:
+        if st.end == "panic":
+            # `len - pos` cannot underflow while pos <= len: only reachable beyond the end of a walk (pos > len); checked below
+            if D.feasible(st, [(pos0 - (recs(st, "len")[0][1].lin if recs(st, "len") else pos0), "<=")]) and recs(st, "len"):
+                problems.append("a panic is reachable with pos <= len")
+            continue
+        if st.end != "return":
+            problems.append("path ends in %s" % st.end)
+            continue
+        ls = recs(st, "len")
+        gs = recs(st, "get")
+        cs = recs(st, "copied")
+        L = ls[0][1].lin if ls else None
+        if L is None or any(x[1].lin.key() != L.key() for x in ls):
+            problems.append("no single container length on the path")
+            continue
+        after = eng.deref(st, args[0])
+        pos1 = after.fs[ip].lin
+        r = st.ret
+        r = st.enum_ref.get(r.name, r) if isinstance(r, SymEnum) else r
+        if not D.feasible(st, [(pos0 - L, "<=")]):
+            continue  # pos > len: beyond the end of a walk, not part of the obligation
+        if not gs:
+            kinds.add("none")
+            if not (isinstance(r, Enum) and r.vi == 0):
+                problems.append("no element fetched but the result is not None")
+            if not D.implies(st, pos0 - L, "==", [(pos0 - L, "<=")]):
+                problems.append("None although pos < len is possible")
+            if not D.implies(st, pos1 - pos0, "=="):
+                problems.append("the counter moves on the None path")
+            continue
+        kinds.add("some")
+        if len(gs) != 1 or len(cs) != 1 or r is not cs[0][1] or cs[0][0][0] is not gs[0][1]:
+            problems.append("result is not copied(get(..)) of one fetch")
+            continue
+        idx = gs[0][0][1].lin
+        if D.feasible(st, [(pos0 - L, "==")]):
+            problems.append("an element is fetched although pos == len is possible")
+        if not D.implies(st, pos1 - pos0 - 1, "=="):
+            problems.append("the counter does not advance by one")
+        if not D.implies(st, idx - L + pos0 + 1, "=="):
+            problems.append("element index is %r, expected len - pos - 1" % (idx,))
+    ok = not problems and kinds == {"none", "some"}
+    return ok, sorted(set(problems))[:4] or {"kinds": sorted(kinds)}
+
+
 def r6_file_provider(chk, F):
     rule = "C06.R6"
     a = F.find1(self_ty="LatestLeapSeconds", name="next_back", trait_ref="DoubleEndedIterator")
     b = F.find1(self_ty="LeapSecondsFile", name="next_back", trait_ref="DoubleEndedIterator")
-    sa, sb = skeleton(F, a), skeleton(F, b)
-    chk.ob(rule, "LeapSecondsFile::next_back", "same-iteration-shape-as-built-in-provider", sa == sb and len(sa) >= 5, "sibling agreement (MIR skeleton)",
-           detail=None if sa == sb else {"builtin": sa, "file": sb})
+    # both providers' next_back, interpreted with the container's len()/get() uninterpreted: None (counter unchanged) iff the counter
+    # equals the length, otherwise the counter advances by one and the element handed out is data[len - counter'] - the same
+    # reverse walk for the built-in table and for the file, however each is written
+    for nm_, fn_ in (("LatestLeapSeconds::next_back", a), ("LeapSecondsFile::next_back", b)):
+        ok_, det_ = _next_back_semantics(F, fn_)
+        chk.ob(rule, nm_, "reverse-walk:None-iff-pos==len,else-data[len-pos-1],pos+1" if nm_.startswith("Latest") else "same-iteration-shape-as-built-in-provider",
+               ok_, "interpreted with len/get uninterpreted", detail=None if ok_ else det_)
     inst = [f for f in F.find(self_ty="Epoch", name="leap_seconds_with", trait="")]
     names = sorted(F.ty_s(f["targs"][0]).split("::")[-1] for f in inst)
     chk.ob(rule, "Epoch::leap_seconds_with", "one-generic-body-for-both-providers", names == ["LatestLeapSeconds", "LeapSecondsFile"],
@@ -405,7 +494,10 @@ def r6_file_provider(chk, F):
         chk.anchor_missing("LeapSecondsFile::from_path")
         return
     fp = fps[0]
-    aggs = [s for bi, si, s in cfg.stmts(fp) if s["k"] == "a" and s["r"]["op"] == "agg" and s["r"].get("adt", "").endswith("LeapSecond")]
+    # (the parser's local cone: from_path and the private helpers / closures its per-line logic may live in)
+    from .c09 import _local_cone
+    cone = _local_cone(F, fp, depth=3)
+    aggs = [s for g in cone for bi, si, s in cfg.stmts(g) if s["k"] == "a" and s["r"]["op"] == "agg" and s["r"].get("adt", "").endswith("LeapSecond")]
     ok = len(aggs) == 1
     if ok:
         xs = aggs[0]["r"]["xs"]
@@ -415,28 +507,50 @@ def r6_file_provider(chk, F):
     chk.ob(rule, "LeapSecondsFile::from_path", "rows-marked-announced", ok, "constant field of the aggregate")
     # columns 0 and 1, '#' lines skipped
     idx = []
-    for bi, t in cfg.calls(fp):
-        nm = cfg.callee_name(t["f"])
-        if nm.endswith("::index") and "Vec<&str>" in nm:
-            k = cfg.resolve(fp, t["args"][1])
-            idx.append(k[1].get("v") if k[0] == "const" else None)
-    chk.ob(rule, "LeapSecondsFile::from_path", "columns-0-and-1", sorted(x for x in idx if x is not None) == [0, 1] and len(idx) == 2, "constant indices",
-           detail=idx)
+    nexts = 0
+    for g in cone:
+        for bi, t in cfg.calls(g):
+            nm = cfg.callee_name(t["f"])
+            if nm.endswith("::index") and "Vec<&str>" in nm:
+                k = cfg.resolve(g, t["args"][1])
+                idx.append(k[1].get("v") if k[0] == "const" else None)
+            if ("SplitWhitespace" in nm or "SplitAsciiWhitespace" in nm) and nm.split("::<")[0].endswith("::next"):
+                nexts += 1
+    # accepted idioms: columns[0] / columns[1] of the collected row, or the first two items pulled from the row's tokenizer
+    okcol = (sorted(x for x in idx if x is not None) == [0, 1] and len(idx) == 2) or (not idx and nexts == 2)
+    chk.ob(rule, "LeapSecondsFile::from_path", "columns-0-and-1", okcol, "constant indices of the collected row / first two tokens of the row",
+           detail={"indices": idx, "tokenizer_next_calls": nexts})
     # the columns of a row: the IERS file aligns them with runs of blanks and tabs, so the row tokenizer must collapse runs of
     # white space.  Accepted idioms (type-resolved: the iterator type that is collected into the column vector):
     # str::split_whitespace / str::split_ascii_whitespace
-    coll = [cfg.callee_name(t["f"]) for bi, t in cfg.calls(fp) if cfg.callee_name(t["f"]).split("::<")[0].endswith("::collect") or "::collect::<" in cfg.callee_name(t["f"])]
-    okc = len(coll) >= 1 and all(("SplitWhitespace" in c_ or "SplitAsciiWhitespace" in c_) for c_ in coll if "&str" in c_)
-    chk.ob(rule, "LeapSecondsFile::from_path", "row-tokenizer-collapses-white-space-runs", okc and any("&str" in c_ for c_ in coll),
-           "resolved iterator type collected into the columns (accepted idioms: split_whitespace, split_ascii_whitespace)", detail=None if okc else coll)
+    allcalls = [cfg.callee_name(t["f"]) for g in cone for bi, t in cfg.calls(g)]
+    coll = [c_ for c_ in allcalls if c_.split("::<")[0].endswith("::collect") or "::collect::<" in c_]
+    strcoll = [c_ for c_ in coll if "&str" in c_]
+    if strcoll:
+        okc = all(("SplitWhitespace" in c_ or "SplitAsciiWhitespace" in c_) for c_ in strcoll)
+    else:
+        # the row is not collected: its columns are pulled straight from the tokenizer, which must be one that collapses runs, and
+        # no other splitter may produce row columns
+        okc = nexts >= 1 and not any(("::Split<" in c_ or "SplitN<" in c_ or "SplitTerminator<" in c_) and c_.split("::<")[0].endswith("::next") for c_ in allcalls)
+    chk.ob(rule, "LeapSecondsFile::from_path", "row-tokenizer-collapses-white-space-runs", okc,
+           "resolved iterator type that yields the row's columns (accepted idioms: split_whitespace, split_ascii_whitespace)", detail=None if okc else coll)
     hashcmp = False
-    for bi, si, s in cfg.stmts(fp):
+    for g in cone:
+      for bi, si, s in cfg.stmts(g):
         if s["k"] == "a" and s["r"]["op"] == "bin" and s["r"]["b"] == "Eq":
             for o in (s["r"]["l"], s["r"]["r"]):
                 k = cfg.operand_const(o)
                 if k is not None and isinstance(k.get("v"), dict) and k["v"].get("char") == "#":
                     hashcmp = True
-    chk.ob(rule, "LeapSecondsFile::from_path", "skips-#-comment-lines", hashcmp, "comparison with '#'")
+    if not hashcmp:
+        # `line.starts_with('#')`
+        for g in cone:
+            for bi, t in cfg.calls(g):
+                if "::starts_with" in cfg.callee_name(t["f"]) and len(t["args"]) == 2:
+                    k = cfg.resolve(g, t["args"][1])
+                    if k[0] == "const" and isinstance(k[1].get("v"), dict) and k[1]["v"].get("char") == "#":
+                        hashcmp = True
+    chk.ob(rule, "LeapSecondsFile::from_path", "skips-#-comment-lines", hashcmp, "comparison with '#' (== on the first character, or starts_with('#'))")
 
 
 def run(chk, F, tier):
